@@ -181,6 +181,44 @@ def run_c14(chk):
             if q is not None and q not in ("ok", "skip"):
                 mfail.append((t, ops, i, "a query on the edited document differs from the same query on a fresh parse of its serialization", q))
                 break
+    # namespace stream: declarations added / removed on ancestors and subtrees moved between scopes, queries that depend
+    # on the expanded names of descendants (monitors only: the DOM model knows no namespaces)
+    NSQ = ("//*[namespace-uri()='urn:u1'];//*[namespace-uri()='urn:u2'];//*[namespace-uri()='urn:u0'];//*[namespace-uri()=''];"
+           "//@*[namespace-uri()='urn:u1'];//@*[namespace-uri()='urn:u2'];count(//*[namespace-uri()!='']);string(namespace-uri(//*[last()]))")
+    NSDOCS = ["<r xmlns:p='urn:u1' xmlns='urn:u0'><p:a><p:b p:x='1'><c/></p:b></p:a><d xmlns:p='urn:u2' xmlns=''><e><p:f/></e></d></r>",
+              "<r><a xmlns:p='urn:u1'><p:b><p:c p:at='v'/></p:b></a><a xmlns:p='urn:u2'><k/></a></r>",
+              "<r xmlns='urn:u0'><mid><leaf><x/></leaf></mid><o xmlns='urn:u1'><i/></o></r>"]
+    nscases = []
+    for _ in range(400 if thorough else 120):
+        t = rng.choice(NSDOCS)
+        ops = []
+        for _ in range(rng.randint(1, 6)):
+            hh = lambda: "h%d" % rng.randint(1, 12)
+            k = rng.random()
+            if k < 0.3:
+                ops.append("ap:%s:%s" % (hh(), hh()))
+            elif k < 0.45:
+                ops.append("ib:%s:%s:%s" % (hh(), hh(), hh()))
+            elif k < 0.8:
+                ops.append("sa:%s:%s:%s" % (hh(), lib.enc(rng.choice(["xmlns:p", "xmlns:p", "xmlns"])), lib.enc(rng.choice(["urn:u1", "urn:u2", "urn:u0"]))))
+            elif k < 0.9:
+                ops.append("ra:%s:%s" % (hh(), lib.enc(rng.choice(["p", "xmlns"]))))
+            else:
+                ops.append("rm:%s:%s" % (hh(), hh()))
+        nscases.append((t, ops))
+    nsimpl = lib.run_lines(lib.build_harness(), [lib.req("dom", t, NSQ, *ops) for t, ops in nscases], timeout=900, per_line_resume=True)
+    ns_ok = 0
+    for (t, ops), a in zip(nscases, nsimpl):
+        for i, x in enumerate(D.split_records(a)):
+            good = i > 0 and x["status"].startswith("ok")
+            ns_ok += good
+            chk.count(["ns", t] + ops[:i], nontrivial=good)
+            q = x["flags"].get("q")
+            if q is not None and q not in ("ok", "skip"):
+                mfail.append((t, ops, i, "after namespace declarations were edited / subtrees moved between scopes, a query on the edited "
+                              "document differs from the same query on a fresh parse of its serialization", q))
+                break
+    chk.cov["namespace_stream"] = "%d histories, %d successful edits" % (len(nscases), ns_ok)
     chk.cov["queries_per_step"] = QUERIES.split(";")
     chk.cov["rule"] = ("%d edit histories; after EVERY step: order() of every attached node along the pre-order walk element -> attributes "
                        "-> attribute value items -> children is non-zero and strictly increasing, every detached node reports 0; and %d "
